@@ -38,6 +38,9 @@ func propC03(r *Report, tier string) {
 
 // successReturn: the return statement does not return a (possibly) non-nil error.
 func successReturn(info *types.Info, g *FCFG, fi *FuncInfo, rs *ast.ReturnStmt) bool {
+	if failureReturns[rs] {
+		return false
+	}
 	sig := fi.Obj.Type().(*types.Signature)
 	n := sig.Results().Len()
 	if n == 0 {
